@@ -405,22 +405,16 @@ theorem getPreviousNode_decreases (h : d.WF) (hc : d.Closed) (c : NumCfg) :
 
 /-- `level="any"`, with or without `from`: the counting code (navigation + cache, any history, any oracle)
 yields the §7.7 count; nothing is printed for zero. -/
-theorem getCountList_any (h : d.WF) (hc : d.Closed) (c : NumCfg) (hl : c.level = .any)
+theorem getCountListZ_any (h : d.WF) (hc : d.Closed) (c : NumCfg) (hl : c.level = .any)
     (hcons : ∀ a b, c.countAt a b = true → c.countAt b = c.countAt a)
     (src : Nat) (hs : src < d.size)
     (after : Nat → Nat → Bool) (cs : List Counter)
-    (hinv : CountersInv (getPreviousNode d c) cs) :
-    (getCountList d c after cs src).2 = (specAny (c.countAt src) c.fromP src).filter (· ≠ 0) ∧
-    CountersInv (getPreviousNode d c) (getCountList d c after cs src).1 := by
+    (hinv : CountersInv (getPreviousNode d c) cs) (z : Bool) :
+    (getCountListZ z d c after cs src).2 =
+      (if z then (specAny (c.countAt src) c.fromP src).filter (· ≠ 0) else specAny (c.countAt src) c.fromP src) ∧
+    CountersInv (getPreviousNode d c) (getCountListZ z d c after cs src).1 := by
   have hdec := getPreviousNode_decreases h hc c
   have hcn := countNode_spec (getTargetNode d c) hdec after cs hinv src
-  rw [specAny_eq_cnt c (c.countAt src) src]
-  unfold getCountList countTargets
-  simp only [hl, countList]
-  refine ⟨?_, hcn.2⟩
-  rw [hcn.1]
-  unfold countSpec
-  rw [getTargetNode_any h c hl src hs]
   have hprev : ∀ n, n < d.size → c.countAt src n = true →
       getPreviousNode d c n = lastBeforeF c.fromMatches (c.countAt src) n := by
     intro n hn hgn
@@ -431,17 +425,29 @@ theorem getCountList_any (h : d.WF) (hc : d.Closed) (c : NumCfg) (hl : c.level =
     rw [prevAny_eq h c n (n + 1) n hn (by omega), he]
   have hchain := chainLen_cnt (getPreviousNode d c) c.fromMatches (c.countAt src) d.size hprev
   have hs3 := lastBeforeF_cnt c.fromMatches (c.countAt src) src
-  by_cases hg : c.countAt src src = true
-  · simp only [hg, if_true]
-    rw [hchain (src + 1) src (by omega) hs hg]
-  · have hg' : c.countAt src src = false := by simpa using hg
-    simp only [hg', Bool.false_eq_true, if_false, Nat.zero_add]
-    cases hlb : lastBeforeF c.fromMatches (c.countAt src) src with
-    | none => simp [hs3.1 hlb]
-    | some t =>
-      obtain ⟨h1, h2, h3⟩ := hs3.2 t hlb
-      simp only
-      rw [hchain (t + 1) t (by omega) (by omega) h2, h3]
+  -- the value `countNode` answers is the §7.7 count
+  have hval : (countNode (getTargetNode d c) (getPreviousNode d c) after cs src).2 =
+      (if c.countAt src src = true then 1 else 0) + cntBelow c.fromMatches (c.countAt src) src := by
+    rw [hcn.1]
+    unfold countSpec
+    rw [getTargetNode_any h c hl src hs]
+    by_cases hg : c.countAt src src = true
+    · simp only [hg, if_true]
+      rw [hchain (src + 1) src (by omega) hs hg]
+    · have hg' : c.countAt src src = false := by simpa using hg
+      simp only [hg', Bool.false_eq_true, if_false, Nat.zero_add]
+      cases hlb : lastBeforeF c.fromMatches (c.countAt src) src with
+      | none => simp [hs3.1 hlb]
+      | some t =>
+        obtain ⟨h1, h2, h3⟩ := hs3.2 t hlb
+        simp only
+        rw [hchain (t + 1) t (by omega) (by omega) h2, h3]
+  rw [specAny_eq_cnt c (c.countAt src) src]
+  unfold getCountListZ countTargets
+  simp only [hl, countList, hval]
+  cases z
+  · exact ⟨by simp, hcn.2⟩
+  · exact ⟨by simp, hcn.2⟩
 
 
 /-! ## `level="single"` / `level="multiple"` -/
@@ -730,13 +736,13 @@ theorem searched_lt (h : d.WF) (fromP : Option (Nat → Bool)) (src : Nat) (hs :
     · right; exact (List.takeWhile_sublist _).subset ha
 
 /-- `level="multiple"`: the counting code yields the §7.7 list, with or without `from`. -/
-theorem getCountList_multiple (h : d.WF) (hc : d.Closed) (c : NumCfg) (hl : c.level = .multiple)
+theorem getCountListZ_multiple (h : d.WF) (hc : d.Closed) (c : NumCfg) (hl : c.level = .multiple)
     (hcons : ∀ a b, c.countAt a b = true → c.countAt b = c.countAt a)
     (src : Nat) (hs : src < d.size)
     (after : Nat → Nat → Bool) (cs : List Counter)
-    (hinv : CountersInv (getPreviousNode d c) cs) :
-    (getCountList d c after cs src).2 = specMultiple d (c.countAt src) c.fromP src ∧
-    CountersInv (getPreviousNode d c) (getCountList d c after cs src).1 := by
+    (hinv : CountersInv (getPreviousNode d c) cs) (z : Bool) :
+    (getCountListZ z d c after cs src).2 = specMultiple d (c.countAt src) c.fromP src ∧
+    CountersInv (getPreviousNode d c) (getCountListZ z d c after cs src).1 := by
   have hne : c.level ≠ .any := by rw [hl]; decide
   have htargets : countTargets d c src = ((searched d c.fromP src).filter (c.countAt src)).reverse := by
     unfold countTargets
@@ -750,19 +756,19 @@ theorem getCountList_multiple (h : d.WF) (hc : d.Closed) (c : NumCfg) (hl : c.le
     simp only [List.mem_reverse, List.mem_filter] at ha
     exact ⟨searched_lt h c.fromP src hs a ha.1, ha.2⟩
   have := countList_siblings h hc c hne (c.countAt src) (fun n hn => hcons src n hn) after _ cs hall hinv
-  unfold getCountList
+  unfold getCountListZ
   rw [htargets]
   simp only [hl]
   exact ⟨this.1, this.2⟩
 
 /-- `level="single"`: the counting code yields the §7.7 list, with or without `from`. -/
-theorem getCountList_single (h : d.WF) (hc : d.Closed) (c : NumCfg) (hl : c.level = .single)
+theorem getCountListZ_single (h : d.WF) (hc : d.Closed) (c : NumCfg) (hl : c.level = .single)
     (hcons : ∀ a b, c.countAt a b = true → c.countAt b = c.countAt a)
     (src : Nat) (hs : src < d.size)
     (after : Nat → Nat → Bool) (cs : List Counter)
-    (hinv : CountersInv (getPreviousNode d c) cs) :
-    (getCountList d c after cs src).2 = specSingle d (c.countAt src) c.fromP src ∧
-    CountersInv (getPreviousNode d c) (getCountList d c after cs src).1 := by
+    (hinv : CountersInv (getPreviousNode d c) cs) (z : Bool) :
+    (getCountListZ z d c after cs src).2 = specSingle d (c.countAt src) c.fromP src ∧
+    CountersInv (getPreviousNode d c) (getCountListZ z d c after cs src).1 := by
   have hne : c.level ≠ .any := by rw [hl]; decide
   have htargets : countTargets d c src = ((searched d c.fromP src).find? (c.countAt src)).toList := by
     unfold countTargets
@@ -776,7 +782,7 @@ theorem getCountList_single (h : d.WF) (hc : d.Closed) (c : NumCfg) (hl : c.leve
     simp only [Option.mem_toList] at ha
     exact ⟨searched_lt h c.fromP src hs a (List.mem_of_find?_eq_some ha), by simpa using List.find?_some ha⟩
   have := countList_siblings h hc c hne (c.countAt src) (fun n hn => hcons src n hn) after _ cs hall hinv
-  unfold getCountList
+  unfold getCountListZ
   rw [htargets]
   simp only [hl]
   refine ⟨?_, this.2⟩
